@@ -831,3 +831,101 @@ func ruleLazyOnce(c *Ctx, r *R) {
 		})
 	}
 }
+
+// C18.range-forwards: xsync.Map.Range hands every entry sync.Map.Range visits to f - the key and the value it was given,
+// converted back to K and V - and returns what f returns. Re-reading the value with Load and skipping the entry when the
+// re-read fails drops entries whose key cannot be looked up again (a NaN key), which sync.Map.Range visits.
+var _ = late(func() {
+	p := properties["C18"]
+	p.Rules = append(p.Rules, &Rule{ID: "C18.range-forwards", Floor: 3, Clause: "the callback xsync.Map.Range gives to sync.Map.Range calls f exactly once on every path, with its own key and value parameters (type-asserted), and returns f's result: no entry is skipped and no value is substituted",
+		Run: func(c *Ctx, r *R) {
+			fn := c.fn("xsync.Map.Range")
+			if fn == nil || len(fn.Params) < 2 {
+				r.undecided("xsync.Map.Range|missing", token.NoPos, "anchor not found")
+				return
+			}
+			userF := fn.Params[1]
+			var cb *ssa.Function
+			for _, di := range deepInstrs(fn, 2) {
+				call, ok := di.in.(*ssa.Call)
+				if !ok {
+					continue
+				}
+				if cal := call.Call.StaticCallee(); cal != nil && cal.Name() == "Range" && cal.Pkg != nil && cal.Pkg.Pkg.Path() == "sync" && len(call.Call.Args) == 2 {
+					if f, _ := funcAndReceiver(call.Call.Args[1]); f != nil && f.Blocks != nil {
+						cb = f
+					}
+				}
+			}
+			if cb == nil || len(cb.Params) < 2 {
+				r.undecided("xsync.Map.Range|callback", fn.Pos(), "the callback handed to sync.Map.Range was not found")
+				return
+			}
+			// a call of the user's function: of f itself (through the capture), or - the callback's body living in a helper
+			// that is handed f (visitTyped(f, key, value)) - of that helper's parameter; recognised by role: a dynamic call of a
+			// two-argument function value that returns bool
+			isUserCall := func(call *ssa.Call) bool {
+				if call.Call.IsInvoke() {
+					return false
+				}
+				switch call.Call.Value.(type) {
+				case *ssa.Function, *ssa.Builtin, *ssa.MakeClosure:
+					return false
+				}
+				sig := call.Call.Signature()
+				if sig == nil || sig.Params().Len() != 2 || sig.Results().Len() != 1 {
+					return false
+				}
+				if bt, ok := sig.Results().At(0).Type().Underlying().(*types.Basic); !ok || bt.Kind() != types.Bool {
+					return false
+				}
+				_ = userF
+				return true
+			}
+			// typestate: number of calls of f (0, 1, 2+)
+			pf := &PF{N: 3, InScope: func(f *ssa.Function) bool { return rootFn(origin(f)).Pkg == rootFn(fn).Pkg && f.Blocks != nil && origin(f) != cb && !token.IsExported(f.Name()) }}
+			var fcalls []*ssa.Call
+			pf.Instr = func(f *ssa.Function, in ssa.Instruction, q int) (StateSet, bool) {
+				if call, ok := in.(*ssa.Call); ok && isUserCall(call) {
+					if q < 2 {
+						return ss(q + 1), true
+					}
+					return ss(2), true
+				}
+				return 0, false
+			}
+			for _, di := range deepInstrs(cb, 2) {
+				if call, ok := di.in.(*ssa.Call); ok && isUserCall(call) {
+					fcalls = append(fcalls, call)
+					// arguments: the callback's own key / value, through type assertions only
+					for ai, a := range call.Call.Args {
+						src := argOf(a, di.calls)
+						for d := 0; d < 4; d++ {
+							switch x := src.(type) {
+							case *ssa.Extract:
+								src = x.Tuple
+								continue
+							case *ssa.TypeAssert:
+								src = x.X
+								continue
+							case *ssa.ChangeType:
+								src = x.X
+								continue
+							}
+							break
+						}
+						src = argOf(src, di.calls)
+						r.ok(ai < len(cb.Params) && src == ssa.Value(cb.Params[ai]), "xsync.Map.Range|f-arg#"+itoa(ai), call.Pos(), "f must be given the "+[]string{"key", "value"}[ai%2]+" that sync.Map.Range handed to the callback (converted), not "+path(a)+": a value re-read from the map differs from it under concurrent stores and is absent for keys that are not equal to themselves")
+					}
+				}
+			}
+			n := 0
+			for _, e := range pf.Exits(cb, ss(0)) {
+				n++
+				r.ok(e.States == ss(1), "xsync.Map.Range|calls-f-once#"+itoa(n), retPos(e.Ret), "a path through the callback returns without having called f exactly once (reachable counts "+countDesc(e.States)+"): an entry that sync.Map.Range visits is skipped")
+			}
+			if len(fcalls) == 0 {
+				r.violated("xsync.Map.Range|calls-f", cb.Pos(), "the callback never calls f")
+			}
+		}})
+})
